@@ -69,6 +69,9 @@ def gen_case(tape, tier):
         "max_plans": 120 if tier == "quick" else 400,
     }
     cfg["reorder_inputs"] = bool(tape.coin(0.3, "reorder-inputs"))
+    if executor["kind"] != "default-pool" and tape.coin(0.2, "resume-with-default-pool"):
+        # first tried without a process pool (debugging), resumed with executor=None, parallel=True
+        cfg["resume_executor"] = {"kind": "default-pool", "ex": {"mode": "process", "workers": 2, "start": "fifo", "pickle_at": "submit"}}
     cfg["peek"] = bool(tape.coin(0.2, "peek"))
     axes = sorted(a for a, n in w["indices"].items() if n > 1)
     if axes and tape.coin(0.12, "fixed-indices"):
@@ -264,7 +267,7 @@ class Attempt:
         self.steps = 0
 
 
-def run_attempt(w, cfg, root, tape, *, attempt, cleanup, interruption=None, inputs_variant=None, new_process=True):
+def run_attempt(w, cfg, root, tape, *, attempt, cleanup, interruption=None, inputs_variant=None, new_process=True, keep=None):
     at = Attempt()
     if new_process:
         C.reset_process_globals()  # the previous attempt's process is gone, and its module state with it
@@ -286,7 +289,13 @@ def run_attempt(w, cfg, root, tape, *, attempt, cleanup, interruption=None, inpu
     folder = os.path.join(root, "run")
     try:
         with sim:
-            p = build_pipeline(w)
+            if keep is not None and not new_process and keep.get("p") is not None:
+                p = keep["p"]  # the program is still running: it resumes with the Pipeline object it already has
+                sim.probe("pipeline_object_reused_on_resume")
+            else:
+                p = build_pipeline(w)
+            if keep is not None:
+                keep["p"] = p
             inputs = build_inputs(w)
             if inputs_variant:
                 inputs = _variant_inputs(w, inputs)
@@ -432,6 +441,7 @@ def _run_plan(w, cfg, plan, ref, tape, *, seen_digests=None):
         counter = [0]
 
         same_process = [False]
+        keep = {}
 
         def episode(ep):
             stored_sets = []
@@ -439,7 +449,7 @@ def _run_plan(w, cfg, plan, ref, tape, *, seen_digests=None):
             n_attempt = 0
             for it in ep:
                 a = run_attempt(w, cfg, root, tape, attempt=counter[0] + n_attempt, cleanup=(n_attempt == 0), interruption=it,
-                                new_process=same_process[0] is False)
+                                new_process=same_process[0] is False, keep=keep)
                 # after a user exception or the death of a pool worker the program is still alive: the caller resumes in
                 # the same process (module state survives); after the death of the main process a new one starts
                 same_process[0] = it["kind"] in ("raise", "worker-death")
@@ -483,7 +493,8 @@ def _run_plan(w, cfg, plan, ref, tape, *, seen_digests=None):
                     info["probes"]["dedup_same_tree"] = 1
                     return False
                 seen_digests.add(key)
-            fin = run_attempt(w, cfg, root, tape, attempt=counter[0] + n_attempt, cleanup=False, new_process=same_process[0] is False)
+            fin = run_attempt(w, dict(cfg, executor=cfg["resume_executor"]) if cfg.get("resume_executor") else cfg, root, tape,
+                              attempt=counter[0] + n_attempt, cleanup=False, new_process=same_process[0] is False, keep=keep)
             same_process[0] = False
             info["yields"] += fin.steps
             later_calls.append(fin.calls)
